@@ -35,6 +35,9 @@ TEMPLATES = {
     'tmpl_group_autocomplete': ('group/mod.rs', '#[cfg(feature = "autocomplete")]\nfn derive_autocomplete'),
     # code emitted by #[derive(CommandGroup)] for Help (command_count, list_commands, command_help), two generic members
     'tmpl_group_help': ('group/mod.rs', '#[cfg(feature = "help")]\nfn derive_help'),
+    # code emitted by #[derive(Command)] for Help: every statement-level quote! fragment of command/help.rs as a function
+    # of its own (rule T6), and the impl literal instantiated for two commands without sub-command (rule T7)
+    'tmpl_command_help': ('command/help.rs', '#[cfg(feature = "help")]\npub fn derive_help'),
 }
 
 
@@ -166,7 +169,162 @@ def extract_group_help(name, repo_src, log):
     return raw, text
 
 
+FRAG_CONTRACT = '''    requires old(writer).wf(),
+        // ASSUMED of the continuation that prints the parent's part of the usage line (the two that exist: `|_| Ok(())` in
+        // Cli::process_help and the closure emitted for a sub-command, which adds two write_str calls): callable with any
+        // well-formed Writer, uses it through its API only, reports a sink failure
+        forall|w: &mut crate::writer::Writer<'_, W, E>| w.wf() ==> #[trigger] (*old(parent)).requires((w,)),
+        forall|w: &mut crate::writer::Writer<'_, W, E>, res: Result<(), E>| w.wf() && #[trigger] (*old(parent)).ensures((w,), res) ==>
+            crate::writer::writer_api_only(w) && (res is Ok ==> final(w).errs() == w.errs()),
+    ensures crate::writer::writer_api_only(writer),   // [C14,C13]
+        r is Ok ==> final(writer).errs() == old(writer).errs(),   // [C14]
+        forall|w: &mut crate::writer::Writer<'_, W, E>| w.wf() ==> #[trigger] (*final(parent)).requires((w,)),
+        forall|w: &mut crate::writer::Writer<'_, W, E>, res: Result<(), E>| w.wf() && #[trigger] (*final(parent)).ensures((w,), res) ==>
+            crate::writer::writer_api_only(w) && (res is Ok ==> final(w).errs() == w.errs()),
+'''
+
+FRAG_GENERICS = ('<W: crate::verif_specs::embedded_io::Write<Error = E>, E: crate::verif_specs::embedded_io::Error, '
+                 'F: FnMut(&mut crate::writer::Writer<\'_, W, E>) -> Result<(), E>, H: crate::service::Help>')
+
+
+def extract_command_help(name, repo_src, log):
+    """code emitted by #[derive(Command)] for Help.  The generator (command/help.rs) assembles the body of list_commands
+    and of each match arm of command_help at expansion time from small quote! literals.  Rule T6: every literal that
+    consists of statements only becomes a function `frag_NN` whose parameters are its interpolations -- `#x` used as a
+    call argument: a `&str` (a `usize` as third argument of write_list_element); `#x` / `#(#x)*` standing alone as a
+    statement: a call `hole(parent, writer)?;` of an abstract function with the contract every fragment is proved to
+    have (so: any sequence of fragments already covered); `#ty`: a generic `H: Help`.  Rule T7: the impl literal is
+    instantiated for two commands without sub-command (`#name => { #blocks },` twice, blocks = hole).
+    NOT covered (listed in the log): the arm emitted for a command WITH a sub-command (option walker, nested parent
+    closure, literals that are match arms or expressions), and everything computed at expansion time (which fragments
+    are concatenated in which order, the strings)."""
+    rel, sel = TEMPLATES[name]
+    path = source_path(name, repo_src)
+    raw = open(path).read()
+    k = raw.find(sel)
+    if k < 0:
+        raise TemplateMismatch('%s: selector not found' % rel)
+    lits = _quote_bodies(raw, k, rel)
+    impl_lit = None
+    simple_arm = None
+    frags = []
+    skipped = []
+    for body, line, _end in lits:
+        if not body.strip():
+            continue
+        text = _dedent(body)
+        if 'impl #named_lifetime' in text:
+            if 'fn command_help' in text:
+                impl_lit = (text, line)
+            continue
+        stripped = text.strip()
+        first = stripped.split('\n')[0]
+        is_arm = ' => ' in first
+        if is_arm:
+            if re.match(r'^#name => \{\s*#blocks\s*\},$', stripped):
+                simple_arm = (stripped, line)
+            else:
+                skipped.append((line, 'match arm'))
+            continue
+        # the pieces of the option walker of a command with a sub-command (identified by what they mention) are not
+        # covered; EVERY other literal is taken as a statement fragment, whatever its statements look like
+        if 'States::' in stripped or stripped == '#state,' or 'args.into_args()' in stripped:
+            skipped.append((line, 'option walker / nested parent closure'))
+            continue
+        frags.append((stripped, line))
+    if impl_lit is None or simple_arm is None or len(frags) < 5:
+        raise TemplateMismatch('%s: impl literal / simple arm / statement fragments not found as expected' % rel)
+    out = []
+    out.append('/// stands for any sequence of fragments: has the contract every fragment below is proved to have')
+    out.append('#[verifier::external_body]')
+    out.append('pub fn hole' + FRAG_GENERICS.replace(', H: crate::service::Help', '') + '(')
+    out.append('    parent: &mut F,')
+    out.append("    writer: &mut crate::writer::Writer<'_, W, E>,")
+    out.append(') -> (r: Result<(), E>)')
+    out.append(FRAG_CONTRACT.rstrip('\n'))
+    out.append('{')
+    out.append('    unimplemented!()')
+    out.append('}')
+    out.append('')
+    out.append('/// as `hole`, where no parent continuation is in scope (list_commands)')
+    out.append('#[verifier::external_body]')
+    out.append("pub fn hole_w<W: crate::verif_specs::embedded_io::Write<Error = E>, E: crate::verif_specs::embedded_io::Error>(")
+    out.append("    writer: &mut crate::writer::Writer<'_, W, E>,")
+    out.append(') -> (r: Result<(), E>)')
+    out.append('    requires old(writer).wf(),')
+    out.append('    ensures crate::writer::writer_api_only(writer),')
+    out.append('        r is Ok ==> final(writer).errs() == old(writer).errs(),')
+    out.append('{')
+    out.append('    unimplemented!()')
+    out.append('}')
+    out.append('')
+    for idx, (text, line) in enumerate(frags, 1):
+        body_lines = []
+        params = []
+        for l in text.split('\n'):
+            t = l.strip()
+            if not t:
+                continue
+            if re.match(r'^#\w+$', t) or re.match(r'^#\(#\w+\)\*$', t):
+                body_lines.append('    hole(parent, writer)?;   // ' + t)
+                continue
+            t = t.replace('<#ty as _cli::service::Help>', '<H as _cli::service::Help>')
+            m3 = re.search(r'write_list_element\([^,]+,[^,]+,\s*#(\w+)\)', t)
+            usize_holes = [m3.group(1)] if m3 else []
+            for h in re.findall(r'#(\w+)', t):
+                ty = 'usize' if h in usize_holes else '&str'
+                if ('h_' + h, ty) not in params:
+                    params.append(('h_' + h, ty))
+            t = re.sub(r'#(\w+)', r'h_\1', t)
+            body_lines.append('    ' + t)
+        out.append('// statement fragment of embedded-cli-macros/src/%s:%d' % (rel, line))
+        out.append('pub fn frag_%02d%s(' % (idx, FRAG_GENERICS))
+        out.append('    parent: &mut F,')
+        out.append("    writer: &mut crate::writer::Writer<'_, W, E>,")
+        for pn, pt in params:
+            out.append('    %s: %s,' % (pn, pt))
+        out.append(') -> (r: Result<(), E>)')
+        out.append(FRAG_CONTRACT.rstrip('\n'))
+        out.append('{')
+        out += body_lines
+        out.append('    Ok(())')
+        out.append('}')
+        out.append('')
+        log.append({'rule': 'T6', 'file': 'embedded-cli-macros/src/' + rel, 'line': line,
+                    'what': 'statement fragment -> fn frag_%02d(%s)' % (idx, ', '.join(p for p, _ in params))})
+    for line, why in skipped:
+        log.append({'rule': 'T6-skip', 'file': 'embedded-cli-macros/src/' + rel, 'line': line,
+                    'what': 'quote! literal NOT covered (%s): part of the arm emitted for a command with a sub-command' % why})
+    # T7: the impl literal for two commands without sub-command
+    text, line = impl_lit
+    arm = simple_arm[0]
+
+    def inst(nm):
+        return arm.replace('#name', '"%s"' % nm).replace('#blocks', 'hole(parent, writer)?;')
+    ind = re.search(r'^([ \t]*)#\(#commands_help\)\*', text, re.M).group(1)
+    arms = '\n'.join(ind + l for nm in ('cmd-one', 'cmd-two') for l in inst(nm).split('\n'))
+    if text.count('#(#commands_help)*') != 1 or text.count('#list_commands') != 1 or text.count('#command_count') != 1:
+        raise TemplateMismatch('%s: unexpected holes in the impl literal' % rel)
+    text = re.sub(r'^[ \t]*#\(#commands_help\)\*', lambda m: arms, text, flags=re.M)
+    text = text.replace('#list_commands', 'hole_w(writer)?;')
+    text = text.replace('{ #command_count }', '{ crate::verif_specs::derived_command_count() }')
+    if text.count('#named_lifetime') != 2 or text.count('#ident') != 1:
+        raise TemplateMismatch('%s: unexpected impl header' % rel)
+    text = text.replace('impl #named_lifetime ', 'impl ').replace('#ident #named_lifetime', 'DerivedHelpCommand')
+    log.append({'rule': 'T7', 'file': 'embedded-cli-macros/src/' + rel, 'line': line,
+                'what': 'impl literal instantiated for two commands without sub-command ("cmd-one", "cmd-two"); #blocks / '
+                        '#list_commands -> hole; #command_count -> arbitrary usize'})
+    res = 'pub struct DerivedHelpCommand;\n\n' + '\n'.join(out) + '\n' + text
+    res = re.sub(r'\b_cli::', 'crate::', res)
+    res = re.sub(r'\b_io::', 'crate::verif_specs::embedded_io::', res)
+    if '#' in re.sub(r'#\[[^\]]*\]', '', re.sub(r'//[^\n]*', '', res)):
+        raise TemplateMismatch('%s: template has interpolations the extraction does not know' % rel)
+    return raw, res
+
+
 def extract(name, repo_src, log):
+    if name == 'tmpl_command_help':
+        return extract_command_help(name, repo_src, log)
     if name == 'tmpl_group_autocomplete':
         return extract_group(name, repo_src, log)
     if name == 'tmpl_group_help':
